@@ -30,6 +30,21 @@ func main() {
 		}
 		return
 	}
+	if cmd == "anchors-gen" {
+		// records the names/signatures/fingerprints of the reviewed tree (rename robustness, anchors.go)
+		os.Remove(anchorsFile())
+		p, err := Load()
+		if err != nil {
+			fmt.Println(err)
+			os.Exit(2)
+		}
+		if err := genAnchors(p); err != nil {
+			fmt.Println(err)
+			os.Exit(2)
+		}
+		fmt.Println("wrote", anchorsFile())
+		return
+	}
 	if cmd == "dump" {
 		p, err := Load()
 		if err != nil {
@@ -83,6 +98,9 @@ func main() {
 		}
 		c.extra["packages_loaded"] = len(p.Pkgs)
 		c.extra["module_functions"] = len(p.Funcs)
+		for _, s := range canonInfo {
+			c.Info("%s", s)
+		}
 		run(p, c)
 		if c.Tier == "thorough" && os.Getenv("VERIF_REPO") == "" {
 			thoroughExtras(p, c)
